@@ -57,6 +57,24 @@ structure Persist where
 def digestImpl (p : Persist) : Nat × List (Nat × Nat) × Nat × List Nat :=
   (p.balanceId, p.codeIds, p.storageDigest, p.pathIds)
 
+/-! ### `StorageData.digest()`: what `storageDigest` hashes
+
+`_mapping` of one account: key (slot, or (slot, num_keys, size_keys)) ↦ z3 term, in insertion order; the digest hashes the
+serialised (key, id(value)) pairs of *every* entry. An entry that is absent is not "zero": under symbolic storage
+(`svm.enableSymbolicStorage`) an untouched slot reads as an arbitrary value, whereas an entry holding the constant 0 reads as 0. -/
+
+/-- one account's `_mapping` as (slot, value id) pairs in insertion order -/
+abbrev StorageMap := List (Nat × Nat)
+
+/-- what a later read of `slot` sees: `none` = never initialised (zero under concrete storage, *arbitrary* under symbolic storage) -/
+def slotOf (m : StorageMap) (slot : Nat) : Option Nat := (m.find? (fun e => e.1 == slot)).map (·.2)
+
+/-- `StorageData.digest()`: the hash input is the whole list of entries (the hash itself is taken to be collision-free) -/
+def storageDigestInput (m : StorageMap) : List (Nat × Nat) := m
+
+/-- a digest that leaves out entries whose value is the constant zero (value id 0 stands for the numeral 0) -/
+def storageDigestSkipZero (m : StorageMap) : List (Nat × Nat) := m.filter (fun e => e.2 != 0)
+
 /-! ## Target resolution -/
 
 section Filters
